@@ -39,6 +39,9 @@ FIXED = [
  (["C10"], "128d3dc", "D46", "ShapelyPolygon.sample_grid(d=...) returned more than ceil(d*area) points; found by the C10 monitor"),
  (["C16"], "7f0510f", "D48", "DeepONetDataset_Unique with a batch size larger than the data and not a multiple of it presented only the first (batch size mod size) functions/locations; found by the C16 monitor"),
  (["C12"], "dfa9262", "D51", "Points[i, j] / Points[i,] with only ints and fewer components than tensor axes was read by torch as an index tensor of axis 0: wrong rows and shape, __setitem__ overwrote whole slices; found by the C12 monitor"),
+ (["C05", "C01", "C18"], "e201d7a", "D56", "TrimeshPolyhedron._contains / TrimeshBoundary._contains passed all columns of the points (incl. parameters) to trimesh: LHS / Gaussian samplers and __contains__ with parameters raised 'points must be (n,3)'; found after polyhedra were added to the generators"),
+ (["C10"], "db7a91b", "D57", "TrimeshBoundary density sampling computed the number of points from the volume instead of the surface area; found by the C10 monitor"),
+ (["C10", "C02"], "962cacd", "D58", "TrimeshPolyhedron.sample_grid returned more points than requested when the bounding box grid left too many points inside (n and density); found by the C10 monitor"),
 ]
 
 OPEN = [
